@@ -30,6 +30,32 @@ pub struct FnCase {
     pub liquidity: u128,
     pub max_a: u64,
     pub max_b: u64,
+    /// 1 / 2: token A's / token B's maximum is replaced by an EXACT-FIT budget (a multiple of the smallest budget for which the exact
+    /// liquidity quotient is an integer, when that fits 64 bits); 3: both
+    #[serde(default)]
+    pub fit: u8,
+}
+
+/// smallest positive budget m for which `budget x num / den` is an integer (den / gcd(num, den)), if it fits 64 bits
+fn exact_fit_unit(num: &BigUint, den: &BigUint) -> Option<u64> {
+    use num_integer::Integer;
+    let g = num.gcd(den);
+    (den / g).to_u64().filter(|m| *m > 0)
+}
+
+/// exact-fit budgets for the state of `c`: token A's quotient is max_a x pu x pe / (2^64 (pu - pe)), token B's max_b x 2^64 / (pe - pl)
+/// (pe = the price clamped to the range)
+pub fn exact_fit_budgets(p: u128, pl: u128, pu: u128, seed: u128) -> (Option<u64>, Option<u64>) {
+    let pe = p.clamp(pl, pu);
+    let k = |m: u64, s: u64| -> u64 {
+        let top = u64::MAX / m;
+        // small multiples mostly; any multiple sometimes
+        let mult = if s & 1 == 0 { 1 + (s >> 1) % top.min(1000) } else { 1 + (s >> 1) % top };
+        m * mult
+    };
+    let a = if pe < pu { exact_fit_unit(&(b(pu) * b(pe)), &(pow2(64) * b(pu - pe))).map(|m| k(m, seed as u64)) } else { None };
+    let bb = if pe > pl { exact_fit_unit(&pow2(64), &b(pe - pl)).map(|m| k(m, (seed >> 64) as u64)) } else { None };
+    (a, bb)
 }
 
 fn fits(l: &BigUint, p: u128, pl: u128, pu: u128, ma: u64, mb: u64) -> bool {
@@ -179,6 +205,18 @@ pub fn check_fn(c: &FnCase, l: &mut Local) -> Result<(), String> {
                 l.count("estimate_true_max_exceeds_u128");
             }
             l.count("estimate_ok");
+            {
+                // exact-fit budgets: the exact quotient of the binding token is an integer
+                let pe = p.clamp(pl, pu);
+                let ia = pe < pu && ((b(pu) * b(pe) * c.max_a) % (pow2(64) * b(pu - pe))).is_zero() && c.max_a > 0;
+                let ib = pe > pl && ((pow2(64) * c.max_b) % b(pe - pl)).is_zero() && c.max_b > 0;
+                if ia {
+                    l.count("estimate_ok_token_a_budget_fits_exactly");
+                }
+                if ib {
+                    l.count("estimate_ok_token_b_budget_fits_exactly");
+                }
+            }
             l.nontrivial(hash_of(&(lo, hi, p, c.max_a, c.max_b)));
         }
         Err(_) => l.count("estimate_err"),
@@ -193,14 +231,39 @@ fn fn_case() -> BoxedStrategy<FnCase> {
             let maxk = MAX_TICK / tsi;
             // liquidity: by magnitude, or the inverse image of a token amount on a boundary of the result type
             let target = prop_oneof![3 => Just(None), 1 => (any::<bool>(), 0usize..AMOUNT_TARGETS.len(), any::<u32>()).prop_map(Some)];
-            (Just(ts), -maxk..=maxk, prop_oneof![2 => 1i32..=200, 1 => 1i32..=(2 * maxk)], 0u8..11, any::<u128>(), gen::bits_u128(110), gen::bits_u64(64), gen::bits_u64(64), target)
+            // exact-fit budgets: one case in four; half of those over a range with a bound on tick 0 (price 2^64), where such budgets are small
+            let fit = prop_oneof![12 => Just((0u8, 0u8)), 4 => (1u8..=3, 0u8..4)];
+            (Just(ts), -maxk..=maxk, prop_oneof![2 => 1i32..=200, 1 => 1i32..=(2 * maxk)], 0u8..11, any::<u128>(), gen::bits_u128(110), gen::bits_u64(64), gen::bits_u64(64), target, fit)
         })
-        .prop_map(|(ts, lo_k, w, state, price_seed, liquidity, max_a, max_b, target)| {
+        .prop_map(|(ts, lo_k, w, state, price_seed, liquidity, max_a, max_b, target, (fit, zero_bound))| {
             let tsi = ts as i32;
             let maxk = MAX_TICK / tsi;
+            let (lo_k, w) = match (fit, zero_bound) {
+                (0, _) | (_, 2..) => (lo_k, w),
+                (_, 0) => (0, w),
+                _ => (-w.min(maxk), w.min(maxk)),
+            };
             let hi_k = (lo_k.saturating_add(w)).min(maxk);
             let lo_k = if hi_k == lo_k { lo_k - 1 } else { lo_k };
-            let mut c = FnCase { tick_spacing: ts, lower: lo_k * tsi, upper: hi_k * tsi, state, price_seed, liquidity, max_a, max_b };
+            let mut c = FnCase { tick_spacing: ts, lower: lo_k * tsi, upper: hi_k * tsi, state, price_seed, liquidity, max_a, max_b, fit };
+            if fit != 0 {
+                if let Some((_, p)) = resolve_state(&c) {
+                    let (pl, pu) = (sqrt_price_from_tick_index(c.lower), sqrt_price_from_tick_index(c.upper));
+                    let (fa, fb) = exact_fit_budgets(p, pl, pu, price_seed.rotate_left(37) ^ liquidity);
+                    if let (true, Some(a)) = (fit & 1 != 0, fa) {
+                        c.max_a = a;
+                        if fit == 1 && max_b & 1 == 0 {
+                            c.max_b = u64::MAX;
+                        }
+                    }
+                    if let (true, Some(bb)) = (fit & 2 != 0, fb) {
+                        c.max_b = bb;
+                        if fit == 2 && max_a & 1 == 0 {
+                            c.max_a = u64::MAX;
+                        }
+                    }
+                }
+            }
             if let (Some((token_a, ti, frac)), Some((_, p))) = (target, resolve_state(&c)) {
                 let (pl, pu) = (sqrt_price_from_tick_index(c.lower), sqrt_price_from_tick_index(c.upper));
                 if let Some(lq) = liquidity_for_amount(p, pl, pu, token_a, AMOUNT_TARGETS[ti], frac) {
@@ -323,7 +386,14 @@ pub fn check_ix(c: &IxCase, l: &mut Local) -> Result<(), String> {
     let exact_maxima = match position_amounts(c.liquidity, st.sqrt_price, pl, pu, true) {
         (a, b2) => a.to_u64().and_then(|x| inc(tfa, x)).zip(b2.to_u64().and_then(|x| inc(tfb, x))),
     };
-    for (max_a, max_b) in [Some((c.max_a, c.max_b)), exact_maxima].into_iter().flatten() {
+    // third pass: EXACT-FIT budgets on the live state (the binding token's exact liquidity quotient is an integer), where they fit 64 bits
+    let (fa, fb) = exact_fit_budgets(st.sqrt_price, pl, pu, ((c.max_a as u128) << 64) | c.max_b as u128);
+    let fit_a = fa.and_then(|x| inc(tfa, x)).map(|x| (x, if c.max_b & 1 == 0 { u64::MAX } else { c.max_b }));
+    let fit_b = fb.and_then(|x| inc(tfb, x)).map(|x| (if c.max_a & 1 == 0 { u64::MAX } else { c.max_a }, x));
+    for (pass, (max_a, max_b)) in [Some((c.max_a, c.max_b)), exact_maxima, fit_a, fit_b].into_iter().enumerate().filter_map(|(i, m)| m.map(|m| (i, m))) {
+        if pass >= 2 {
+            l.count(if pass == 2 { "by_amounts_exact_fit_budget_a_offered" } else { "by_amounts_exact_fit_budget_b_offered" });
+        }
         // the maxima bound what is requested from the owner incl. transfer fee: the curve amounts may use what is left after the fee
         let best = largest_liquidity(st.sqrt_price, pl, pu, exc(tfa, max_a), exc(tfb, max_b));
         let (a0, b0, _, _) = bal(&h.w);
